@@ -93,7 +93,7 @@ Definition b2z (b : bool) : Z := if b then 1 else 0.
 (* one recorded event, already decoded *)
 Inductive ev :=
 | EvCall (id d b : Z)                                   (* a timed match starts at stamp b *)
-| EvEnd (id d b f outcome stall : Z)                    (* it returned at f; outcome 1 = timeout error; stall = lag excess witnessed by the harness *)
+| EvEnd (id d b f outcome stall : Z)                    (* it returned at f; outcome 1 = timeout error; stall = lag excess witnessed by the harness during this and the previous step *)
 | EvStop (b : Z)                                        (* StopTimeoutClock called at b (it returned before the next event) *)
 | EvSnap (p c ce r st0 since present stall : Z).              (* snapshot at p: current clockEnd running started since-start goroutine-present *)
 
@@ -106,11 +106,11 @@ Fixpoint lookup (id : Z) (m : list (Z * nat)) : option nat :=
 (* failed check: [event index; code; model value; implementation value] *)
 Definition fail (idx code mv iv : Z) : list Z := [idx; code; mv; iv].
 
-Definition check_end (idx d b f outcome stall hstall : Z) : list Z :=
+Definition check_end (idx d b f outcome stall : Z) : list Z :=
   let L := f - b in
   let hi := d + late_slack period (lag + stall) + margin in
   if outcome =? 1 then
-    (if L <? d - early_slack (lag + hstall) then fail idx 11 (d - early_slack (lag + hstall)) L else []) ++
+    (if L <? d - early_slack (lag + stall) then fail idx 11 (d - early_slack (lag + stall)) L else []) ++
     (if L >? hi then fail idx 12 hi L else [])
   else
     (if L >? hi then fail idx 13 hi L else []).
@@ -154,7 +154,7 @@ Fixpoint replay (fuel : nat) (idx hst : Z) (evs : list ev) (m : list (Z * nat)) 
           | Some i =>
               do s2 <- stepE s1 (Step i) ;
               let s3 := match step fx period lag s2 (Finish i) with Some x => x | None => s2 end in
-              replay fuel (idx + 1) hst' evs' m s3 (acc ++ check_end idx d b f outcome stall hst')
+              replay fuel (idx + 1) hst' evs' m s3 (acc ++ check_end idx d b f outcome stall)
           end
       | EvStop b =>
           do s1 <- advance fuel b s ;
